@@ -5,7 +5,9 @@
 //!   plan) — every binary set operation, operator form, assigning form, predicate, `==`, `extend`, `clone_from`
 //!   against `BTreeSet` / `BTreeMap`, followed by look-ups of the whole universe and further growth;
 //! * `zst`: `HashMap<(), ()>`, `HashSet<()>`, `HashMap<(), u64>` (zero-sized element resp. zero-sized key) with
-//!   many capacities and hasher seeds — at most one element, so the reference is an `Option`.
+//!   many capacities and hasher seeds — at most one element, so the reference is an `Option`;
+//! * `zst-drop`: zero-sized elements WITH drop glue (`HashSet<Tok>`, `HashMap<Tok, ()>`, `HashMap<(), Tok>`,
+//!   `HashTable<Tok>`): tokens made minus tokens dropped equals tokens stored, at every step and at the end.
 //!
 //! One line per scenario: `scn <kind>-<seed>-<i> [ORACLE-XHASH(..)|ORACLE-ZST(..)]`. A scenario is replayed by
 //! running `hbv extras <seed> <count> <prefix>` again (everything derives from the seed).
@@ -722,12 +724,176 @@ fn misc(rng: &mut Rng) -> Result<(), String> {
     Ok(())
 }
 
+// ---------------------------------------------------------------------------------------------------------
+// zero-sized elements WITH drop glue: `HashSet<Tok>`, `HashMap<Tok, ()>`, `HashMap<(), Tok>`, `HashTable<Tok>`.
+// The ledger is two thread-local counters: tokens made (new + clone) and tokens dropped; at every step
+// `made - dropped` must equal the number of tokens alive (stored in the collections + held by the scenario).
+thread_local! {
+    static TOK_MADE: std::cell::Cell<i64> = const { std::cell::Cell::new(0) };
+    static TOK_DROPPED: std::cell::Cell<i64> = const { std::cell::Cell::new(0) };
+}
+#[derive(PartialEq, Eq, Hash, Debug)]
+struct Tok;
+impl Tok {
+    fn new() -> Tok {
+        TOK_MADE.with(|c| c.set(c.get() + 1));
+        Tok
+    }
+}
+impl Clone for Tok {
+    fn clone(&self) -> Tok {
+        Tok::new()
+    }
+}
+impl Drop for Tok {
+    fn drop(&mut self) {
+        TOK_DROPPED.with(|c| c.set(c.get() + 1));
+    }
+}
+fn tok_live() -> i64 {
+    TOK_MADE.with(|c| c.get()) - TOK_DROPPED.with(|c| c.get())
+}
+
+fn zst_drop_one(rng: &mut Rng) -> Result<(), String> {
+    let cap = *rng.pick(&[0usize, 1, 3, 4, 7, 8, 14, 15, 28, 29, 56, 100]);
+    let seed = rng.next();
+    let base = tok_live();
+    let r = (|| -> Result<(), String> {
+        let mut s: HashSet<Tok, Seeded> = HashSet::with_capacity_and_hasher(cap, Seeded(seed));
+        let mut mk: HashMap<Tok, (), Seeded> = HashMap::with_capacity_and_hasher(cap, Seeded(seed));
+        let mut mv: HashMap<(), Tok, Seeded> = HashMap::with_capacity_and_hasher(cap, Seeded(seed));
+        let mut t: hashbrown::HashTable<Tok> = hashbrown::HashTable::with_capacity(cap);
+        let steps = 8 + rng.below(40);
+        for step in 0..steps {
+            let what = rng.below(26);
+            match what {
+                0 | 1 => {
+                    s.insert(Tok::new());
+                }
+                2 => {
+                    s.remove(&Tok::new());
+                }
+                3 => {
+                    let _ = s.replace(Tok::new());
+                }
+                4 => {
+                    let _ = s.take(&Tok::new());
+                }
+                5 => {
+                    s.get_or_insert(Tok::new());
+                }
+                6 => {
+                    let keep = rng.chance(1, 2);
+                    s.retain(|_| keep);
+                }
+                7 => {
+                    let n = s.drain().count();
+                    if n > 1 {
+                        return Err(format!("step {}: set drain yielded {} zero-sized elements", step, n));
+                    }
+                }
+                8 => {
+                    let c = s.clone();
+                    if c.len() != s.len() {
+                        return Err(format!("step {}: clone has another length", step));
+                    }
+                }
+                9 => s.clear(),
+                10 | 11 => {
+                    mk.insert(Tok::new(), ());
+                }
+                12 => {
+                    let _ = mk.remove_entry(&Tok::new());
+                }
+                13 => {
+                    mk.entry(Tok::new()).or_insert(());
+                }
+                14 => {
+                    let take = rng.chance(1, 2);
+                    let _ = mk.extract_if(|_, _| take).count();
+                }
+                15 | 16 => {
+                    let _ = mv.insert((), Tok::new());
+                }
+                17 => {
+                    let _ = mv.remove(&());
+                }
+                18 => {
+                    mv.entry(()).or_insert_with(Tok::new);
+                }
+                19 => {
+                    let c = mv.clone();
+                    mv.clone_from(&c);
+                }
+                20 | 21 => {
+                    if t.find(0, |_| true).is_none() {
+                        t.insert_unique(0, Tok::new(), |_| 0);
+                    }
+                }
+                22 => {
+                    if let Ok(e) = t.find_entry(0, |_| true) {
+                        let _ = e.remove();
+                    }
+                }
+                23 => {
+                    match t.entry(0, |_| true, |_| 0) {
+                        hashbrown::hash_table::Entry::Occupied(_) => {}
+                        hashbrown::hash_table::Entry::Vacant(v) => {
+                            v.insert(Tok::new());
+                        }
+                    }
+                }
+                24 => {
+                    let c = t.clone();
+                    drop(c);
+                    t.shrink_to_fit(|_| 0);
+                }
+                _ => {
+                    s.shrink_to_fit();
+                    mk.reserve(rng.below(40) as usize);
+                    mv.shrink_to(rng.below(20) as usize);
+                }
+            }
+            let stored = (s.len() + mk.len() + mv.len() + t.len()) as i64;
+            let live = tok_live() - base;
+            if live != stored {
+                return Err(format!(
+                    "with_capacity({}) step {} (op {}): {} zero-sized tokens alive but {} stored (set {}, key map {}, value map {}, table {}) — {}",
+                    cap, step, what, live, stored, s.len(), mk.len(), mv.len(), t.len(),
+                    if live < stored { "a stored token was already dropped" } else { "a token leaked" }
+                ));
+            }
+        }
+        // leave through different doors
+        match rng.below(3) {
+            0 => {
+                let n = s.into_iter().count() + mk.into_keys().count() + mv.into_values().count() + t.into_iter().count();
+                let _ = n;
+            }
+            1 => {
+                let _ = s.drain();
+                let _ = mk.drain();
+                mv.clear();
+                t.clear();
+            }
+            _ => {}
+        }
+        Ok(())
+    })();
+    r?;
+    let left = tok_live() - base;
+    if left != 0 {
+        return Err(format!("with_capacity({}): after everything was dropped {} zero-sized tokens are {}", cap, left.abs(), if left < 0 { "dropped twice" } else { "leaked" }));
+    }
+    Ok(())
+}
+
 pub fn run(seed: u64, count: usize, prefix: &str) {
     use std::io::Write;
     let mut ops = std::io::BufWriter::new(std::fs::File::create(format!("{}.ops", prefix)).unwrap());
     let mut real = std::io::BufWriter::new(std::fs::File::create(format!("{}.real", prefix)).unwrap());
     for i in 0..count {
-        for (kind, tag) in [("xhash-sets", "XHASH"), ("xhash-maps", "XHASH"), ("zst", "ZST"), ("misc", "MISC"), ("xhash-clone-panic", "XHASH"), ("owning-fold", "MISC")] {
+        for (kind, tag) in [("xhash-sets", "XHASH"), ("xhash-maps", "XHASH"), ("zst", "ZST"), ("misc", "MISC"), ("xhash-clone-panic", "XHASH"), ("owning-fold", "MISC"), ("zst-drop", "ZST")] {
             let mut rng = Rng::new(crate::tape::mix3(seed, i as u64, kind.len() as u64));
             let id = format!("scn extras-{}-{}-{}", kind, seed, i);
             writeln!(ops, "{}", id).unwrap();
@@ -737,6 +903,7 @@ pub fn run(seed: u64, count: usize, prefix: &str) {
                 "misc" => misc(&mut rng),
                 "xhash-clone-panic" => xhash_clone_panic(&mut rng),
                 "owning-fold" => owning_fold_mixed(&mut rng),
+                "zst-drop" => zst_drop_one(&mut rng),
                 _ => zst_one(&mut rng),
             }));
             let verdict = match r {
